@@ -17,6 +17,18 @@ CLAIMED = {
         "technique": "Coq proof (induction + field) over a translator-generated model; exact-rational differential execution",
         "design": "DESIGN.md section 5, C14",
     },
+    "C07": {
+        "text": "Coq theorems (props/C07.v) over the model regenerated from metrics/mean.py: field identities, p-value in "
+                "[0,1], unbounded side, interval contains estimate (two-sided: all levels; one-sided: level >= 1/2), relative "
+                "interval for means of equal sign, p-value/interval duality, complementarity of one-sided p-values, "
+                "two-sided = 2*min, nesting in the confidence level - for every distribution family satisfying laws L1-L6 "
+                "and all admissible statistics; refutation witness for one-sided level < 1/2 in props/C07_findings.v",
+        "note": "trusted: Coq kernel, stdlib real axioms (+ Classical_Prop.classic via Rpower/exp lemmas), translator, "
+                "distribution laws as hypotheses (satisfiable: logistic witness family), stand-in shims; floats outside the theorem",
+        "technique": "Coq proof over translator-generated model with distribution-law hypotheses; exact differential with "
+                     "stand-in functions; relation oracle on the real code",
+        "design": "DESIGN.md section 5, C07",
+    },
 }
 REASONS = {}
 
